@@ -555,6 +555,48 @@ def _r097(ck, prog, cfg):
                  detail="only `no delta` and `no WAL` skip the WAL write")
 
 
+def _running_max(f, o):
+    """the same maximum as a hand-written loop:  let mut hi = 0; for name in &files { if let Some(s) = parse(name) { if s > hi { hi = s } } }
+    -> (True, description) when the operand is such an accumulator over the whole listing"""
+    from . import lib2
+    from .lib import switch_info
+    s0 = src_of_operand(f, o)
+    l = s0.local
+    if l is None or l <= f.d["argc"]:
+        return None
+    defs = f.defs().get(l, [])
+    inits = [d for d in defs if d[2] == "assign" and d[3]["k"] == "use" and "c" in d[3]["a"]]
+    ups = [d for d in defs if d[2] == "assign" and d[3]["k"] == "use" and "c" not in d[3]["a"]]
+    if len(inits) != 1 or len(ups) != 1 or len(defs) != 2:
+        return None
+    ub = ups[0][0]
+    x = src_of_operand(f, ups[0][3]["a"])
+    if not (x.kind == "call" and is_callee(x.term, r"parse_wal_sequence$") and x.fields[-2:] == ("<Some>", "0")):
+        return None
+    # guarded by `candidate > accumulator`
+    guarded = False
+    for sb, _ in lib2.controlling_switches(f, ub):
+        si = switch_info(f, sb)
+        src = si["src"] if si else None
+        if src is not None and src.kind == "rv" and src.rv["k"] == "bin" and src.rv["op"] in ("Gt", "Ge", "Lt", "Le"):
+            a, b = src_of_operand(f, src.rv["a"]), src_of_operand(f, src.rv["b"])
+            cand_first = a.kind == "call" and is_callee(a.term, r"parse_wal_sequence$") and b.local == l
+            cand_second = b.kind == "call" and is_callee(b.term, r"parse_wal_sequence$") and a.local == l
+            if (cand_first and src.rv["op"] in ("Gt", "Ge")) or (cand_second and src.rv["op"] in ("Lt", "Le")):
+                tt, ft = lib2.bool_edges(f, sb)
+                guarded = tt is not None and (ub == tt or ub in f.reach([tt], avoid=[sb]))
+    if not guarded:
+        return None
+    # inside a loop over the whole listing
+    for h, (none_t, some_t, nb) in lib2.loop_heads(f).items():
+        if ub in f.reach([some_t], avoid=[h]) and not lib2.loop_cut(f, h):
+            chain = [n for n, _ in lib2.iter_chain(f, f.term(nb)["args"][0])]
+            srcl = src_of_operand(f, f.term(nb)["args"][0], through_calls=(r"IntoIterator>::into_iter$", r"Deref>::deref$", r"Try>::branch$", r"<impl \[.*\]>::iter$", r"Vec::<.*>::iter$"))
+            if (srcl.kind == "call" and is_callee(srcl.term, r"::list$")) or "list" in chain:
+                return True, ["running-max", "for", "list"]
+    return None
+
+
 def _r098(ck, prog, cfg):
     from . import lib2
     f = prog.one("streaming::wal::WalRotator::<S>::new")
@@ -595,6 +637,8 @@ def _r098(ck, prog, cfg):
             cur = src_of_operand(f, cur.term["args"][0], through_calls=(r"Deref>::deref$", r"Try>::branch$"))
     good = bool(names) and names[0] == "max" and "list" in names and not [n for n in names if n in ("last", "first", "take", "skip", "nth", "get", "pop", "rev")] \
         and any(n in ("filter_map", "map", "flat_map") for n in names)
+    if not good and "c" not in o:
+        good, names = _running_max(f, o) or (False, names)
     ck.check(good, "R09.8", "new:max-over-all-names" + _tag(cfg),
              "the rotator's starting sequence is not the maximum over every listed name (derivation: %s): if the element it looks at is not a "
              "WAL file the numbering restarts at 0 and the next rotation re-creates - truncates - a file holding acknowledged entries"
